@@ -118,6 +118,42 @@ theorem C18_not_rejected_for_depth_partial (s : St) (d m : Nat) (hq : s.qos.dept
     · simp [hf] at hspi; omega
   · rw [h1] at hrej; cases hrej
 
+/-- C18 (a replacement is never rejected for max_samples): when the instance already holds `depth` data samples
+    (so the new sample only replaces the oldest one) and the reader respects its max_samples limit so far, the new
+    sample is not rejected with reason `samples` -/
+theorem C18_replacement_not_rejected_for_max_samples (s : St) (d m : Nat) (hq : s.qos.depth = some d) (hd : 1 ≤ d)
+    (hm : s.qos.maxSamples = some m) (hlim : cnt isAlive s.samples ≤ m)
+    (w : Nat) (data : String) (k : Kind) (h : Nat) (sts : Option Nat) (rts : Nat)
+    (hfull : cnt (isAliveOf h) s.samples = d) :
+    (addChange s w data k h sts rts).2 ≠ .rejected h .samples := by
+  intro hrej
+  obtain ⟨_, hc⟩ := addChange_cases s w data k h sts rts
+  rcases hc with ⟨h1, _⟩ | ⟨h1, _⟩ | ⟨why, h1, _, _, _, _, hwhy⟩ | ⟨_, _, h1, _⟩
+  · rw [h1] at hrej; cases hrej
+  · rw [h1] at hrej; cases hrej
+  · rw [h1] at hrej
+    injection hrej with _ hw
+    subst hw
+    unfold RejWhy hitSamples limitHit replacedCount at hwhy
+    rw [hm, hq] at hwhy
+    have hpos : 1 ≤ cnt isAlive s.samples := by
+      have : cnt (isAliveOf h) s.samples ≤ cnt isAlive s.samples := by
+        clear hwhy hfull hlim
+        induction s.samples with
+        | nil => simp
+        | cons x xs ih =>
+          simp only [cnt]
+          by_cases hx : isAliveOf h x = true
+          · have : isAlive x = true := by simp [isAliveOf, isAlive] at *; exact hx.2
+            simp [hx, this]; omega
+          · have hx' : isAliveOf h x = false := by simpa using hx
+            simp only [hx', Bool.false_eq_true, if_false]
+            split <;> omega
+      omega
+    simp [hfull] at hwhy
+    omega
+  · rw [h1] at hrej; cases hrej
+
 /-- non-vacuity: a full instance with depth = max_samples_per_instance = 1 accepts the next sample -/
 example :
     let q : Qos := { depth := some 1, maxSamples := none, maxInst := none, maxSpi := some 1, bySource := false,
